@@ -19,7 +19,10 @@ LEVEL_NOTE = ("Per-run certificates, not a proof about the C++: Lee's sweep, inV
 TECHNIQUE = "Lean 4 theorems (weak duality, certificate checker soundness, sqrt enclosures) + per-run verified shortest-path certificates on libavoid outputs"
 RULE = ("scenes: 1-8 (thorough <=20) separated convex obstacles (gap >= 1) in grid cells, integer (degenerate) or jittered into "
         "general position (coordinates k/64); 2-8 polyline connectors, free or corner-hugging endpoints; segment penalty in "
-        "{0,5,50}; Lee / naive visibility; IgnoreRegions on/off. Non-trivial: some route has >= 3 points.")
+        "{0, 5, 50, 0.5, 1.5, 2.75, 11.5}; Lee / naive visibility; IgnoreRegions on/off. Strict families: aligned-sides (2-4 "
+        "separated rectangles sharing a side line, every insertion order, optimum along the line) and fractional-onebox (one "
+        "rectangle, a 1-bend and a 2-bend route whose length gap d satisfies floor(p) < d < p for a fractional penalty p). "
+        "Non-trivial: some route has >= 3 points.")
 TRUSTED_BASE = ["Lean 4.33 kernel", "axioms: propext, Classical.choice, Quot.sound", "Lean compiler for the driver",
                 "harness + generator + hex-float import", "driver glue (parsing, graph assembly from specGraph/edgesFrom)"]
 ASSUMPTIONS = ["Euclidean shortest paths among convex polygonal obstacles bend only at obstacle vertices (oracle definition)",
